@@ -248,7 +248,8 @@ def run(rep):
     from pgv.replayers import c08 as R
     n = 0
     for res in R.history_cases(rep.seed, thorough=rep.tier == 'thorough'):
-        rep.add_bounded(f"{P}/bounded.history/{res['name']}", res['ok'], res['detail'], replay={'kind': 'c08.sequence', 'ops': res.get('ops')})
+        rep.add_bounded(f"{P}/bounded.history/{res['name']}", res['ok'], res['detail'],
+                        replay={'kind': 'c08.bulk'} if '|bulk:' in res['name'] else {'kind': 'c08.value'} if 'retrieved_equals_stored' in res['name'] else {'kind': 'c08.sequence', 'ops': res.get('ops')})
         n += 1
     rep.extra_cov['explanation'] = (f"builders, per-operation statement sequences, retrieval equality and the static reads clause are discharged "
                                     f"obligations; equivalence with a dictionary model over operation histories is bounded ({n} histories this run) and "
